@@ -363,7 +363,7 @@ impl PubSubManager {
 }
 
 /// Check if a pattern matches a channel name
-/// Supports glob-style patterns with * and ?
+/// Supports glob-style patterns with *, ? and [...] classes
 pub fn pattern_matches(pattern: &[u8], channel: &[u8]) -> bool {
     let mut p_idx = 0;
     let mut c_idx = 0;
@@ -385,6 +385,38 @@ pub fn pattern_matches(pattern: &[u8], channel: &[u8]) -> bool {
                     star_match_idx = c_idx;
                     p_idx += 1;
                     continue;
+                }
+                b'[' => {
+                    // [abc], [^abc], [a-z]: character class (same rules as the KEYS/SCAN matcher)
+                    if let Some(end) = pattern[p_idx..].iter().position(|&c| c == b']') {
+                        let class_end = p_idx + end;
+                        let negate = p_idx + 1 < class_end && pattern[p_idx + 1] == b'^';
+                        let start_idx = if negate { p_idx + 2 } else { p_idx + 1 };
+
+                        let mut matched = false;
+                        let mut i = start_idx;
+                        while i < class_end {
+                            if i + 2 < class_end && pattern[i + 1] == b'-' {
+                                if channel[c_idx] >= pattern[i] && channel[c_idx] <= pattern[i + 2] {
+                                    matched = true;
+                                    break;
+                                }
+                                i += 3;
+                            } else {
+                                if channel[c_idx] == pattern[i] {
+                                    matched = true;
+                                    break;
+                                }
+                                i += 1;
+                            }
+                        }
+
+                        if matched != negate {
+                            p_idx = class_end + 1;
+                            c_idx += 1;
+                            continue;
+                        }
+                    }
                 }
                 b'\\' if p_idx + 1 < pattern.len() => {
                     // Escaped character
@@ -506,6 +538,17 @@ mod tests {
         assert!(pattern_matches(b"news.*", b"news.sports"));
         assert!(pattern_matches(b"news.*", b"news.weather"));
         assert!(!pattern_matches(b"news.*", b"news"));
+        
+        // [...] classes
+        assert!(pattern_matches(b"[n]ews", b"news"));
+        assert!(!pattern_matches(b"[n]ews", b"[n]ews"));
+        assert!(pattern_matches(b"h[ae]llo", b"hallo"));
+        assert!(!pattern_matches(b"h[ae]llo", b"hillo"));
+        assert!(pattern_matches(b"h[^e]llo", b"hallo"));
+        assert!(!pattern_matches(b"h[^e]llo", b"hello"));
+        assert!(pattern_matches(b"h[a-c]llo", b"hbllo"));
+        assert!(!pattern_matches(b"h[a-c]llo", b"hdllo"));
+        assert!(pattern_matches(b"\\[n]ews", b"[n]ews"));
         
         // Edge cases
         assert!(pattern_matches(b"", b""));
